@@ -12,7 +12,8 @@ META = {
                  'SentryFormatter under a virtual clock + extracted boolean oracle and Python json on the implementation output',
     'text': 'Theorems (Properties_C18.v) show for EVERY message, attribute list and time in years 0000-9999 that the event text parses back '
             'to the written object, carries level / message.formatted / logger / fingerprint / timestamp as specified, and holds every '
-            'custom attribute exactly once (dedicated slot or extra).  The constants and the shape of format() are re-read from '
+            'custom attribute exactly once (dedicated slot or extra); a number held by any numeric QVariant type inside its range is intact (the number under '
+            'extra, its decimal digits - which identify it - in a routed slot, integer types).  The constants and the shape of format() are re-read from '
             'sentryformatter.cpp on every run; the extracted model is compared byte for byte with the real formatter (event id taken '
             'from the output; its format and pairwise distinctness are checked, freshness itself is QUuid\'s).',
     'note': 'Trusted: Coq 8.16.1 kernel (vm_compute for the closed configuration check and the 146097-day civil-calendar sweep), no axioms; '
